@@ -1092,6 +1092,11 @@ Section AssembleP.
       destruct (nkind (nd u m)); try discriminate Est. apply bool_decide_eq_true in Har. rewrite Har in Hym. inv Hym.
   Qed.
 
+  (* the bind records that existed before the step keep their cases, main and lhs *)
+  Lemma assemble_read b1 : is_Some (binds s !! b1) ->
+    b_cases (bd s' b1) = b_cases (bd s b1) /\ b_main (bd s' b1) = b_main (bd s b1) /\ b_lhs (bd s' b1) = b_lhs (bd s b1).
+  Proof. exact (S'read b1). Qed.
+
   (* the owed set across the step *)
   Lemma assemble_frameP :
     (forall y, inP s (b :: Rp) y = true -> y <> b -> inGraph (nd s' y) = true -> inP s' Rp y = true) /\
@@ -1167,6 +1172,70 @@ Proof.
   subst imm. subst s'. split.
   - eapply (assemble_frame fuel s b u s1 None); eassumption.
   - eapply (assemble_frameP fuel s b u s1 None); eassumption.
+Qed.
+
+
+Theorem bind_step_readP fuel s b R s' :
+  Tplain s -> PInv s -> LInvP s (b :: R) -> inGraph (nd s b) = true -> nkind (nd s b) = KBindLhs b ->
+  recomputeNodeParallel fuel [] s b = Ok (s', None) ->
+  forall b1, is_Some (binds s !! b1) ->
+    b_cases (bd s' b1) = b_cases (bd s b1) /\ b_main (bd s' b1) = b_main (bd s b1) /\ b_lhs (bd s' b1) = b_lhs (bd s b1).
+Proof.
+  intros TP P L Hg Hk H b1 Hb1.
+  destruct (rnp_rns fuel s b s' H) as (s1 & imm & Hs & Hadd).
+  destruct (recomputeNodeSerial_spec PT PT_struct bind_spec_holds fuel [] s b s1 None imm Logic.I P eq_refl Hg Hs)
+    as [[Hr|Hr]|[(P1 & _) _]]; try discriminate.
+  destruct (rns_lhs fuel s b s1 imm Hk Hs) as (u & Hbind & Htail).
+  destruct (stages fuel s b u P Hg Hk Hbind) as (s3 & root & t8 & Einst & FP & Ecp & T8 & F8 & Eiv & Hsame & Hval & PU).
+  assert (Hrd : b_cases (bd s1 b1) = b_cases (bd s b1) /\ b_main (bd s1 b1) = b_main (bd s b1) /\ b_lhs (bd s1 b1) = b_lhs (bd s b1)).
+  { eapply (assemble_read fuel s b u s1 imm); eassumption. }
+  assert (Eb : bd s' b1 = bd s1 b1).
+  { destruct imm as [c|]; [|subst; reflexivity]. apply heapAdd_inv in Hadd as (w & _ & ->). reflexivity. }
+  rewrite Eb. exact Hrd.
+Qed.
+
+(* the serial step, through the weak invariant *)
+Lemma LInvP_of_cur s b : inGraph (nd s b) = true -> HeapSpec.inv (heap s) -> LInvC s (Some b) -> LInvP s [b].
+Proof.
+  intros Hg I L.
+  assert (HW : forall n, inP s [b] n = inW s (Some b) n).
+  { intros n. unfold inP, inW. f_equal. destruct (decide (n = b)) as [->|Hne].
+    - rewrite Hg, (bool_decide_eq_true_2 (b ∈ [b])) by left. rewrite bool_decide_eq_true_2 by reflexivity. reflexivity.
+    - rewrite (bool_decide_eq_false_2 (n ∈ [b])) by (intros Hin; apply elem_of_list_singleton in Hin; congruence).
+      rewrite bool_decide_eq_false_2 by congruence. reflexivity. }
+  constructor.
+  - exact (lc_shape _ _ L).
+  - exact (lc_stamps _ _ L).
+  - apply NoDup_singleton.
+  - intros w n Hw Hr Hd. rewrite HW in Hw. rewrite (lc_B _ _ L w n Hw Hr) in Hd. discriminate.
+  - intros m w Hm _ _ Hw Hr. apply elem_of_list_singleton in Hm as ->. rewrite HW in Hw.
+    apply (inW_iff s (Some b) w I) in Hw as [Hw|Hw]; [|congruence].
+    exfalso. exact (lc_M _ _ L b w eq_refl Hw Hr).
+  - intros n Hgn Hd Hs. rewrite HW. apply (lc_owed _ _ L n Hgn Hd Hs).
+  - intros n Hgn Hw Hgd. rewrite HW in Hw. apply (lc_clean _ _ L n Hgn Hw).
+    unfold guardedP in Hgd. unfold guarded. apply forallb_intro. intros p Hp.
+    pose proof (forallb_elem _ _ _ Hgd Hp) as H. cbv beta in H. apply andb_true_iff in H as [H1 H2].
+    rewrite H1. simpl. apply negb_true_iff in H2. apply negb_true_iff. unfold volqP in H2. unfold volq.
+    destruct (nkind (nd s p)); try reflexivity.
+    + rewrite <- HW. exact H2.
+    + apply orb_false_iff in H2 as [_ H2]. exact H2.
+  - exact (lc_unreg _ _ L).
+  - exact (lc_quiet _ _ L).
+Qed.
+
+Theorem bind_step_readS fuel s b s' imm :
+  Tplain s -> PInv s -> LInvC s (Some b) -> inGraph (nd s b) = true -> nkind (nd s b) = KBindLhs b ->
+  recomputeNodeSerial fuel [] s b = Ok (s', None, imm) ->
+  forall b1, is_Some (binds s !! b1) ->
+    b_cases (bd s' b1) = b_cases (bd s b1) /\ b_main (bd s' b1) = b_main (bd s b1) /\ b_lhs (bd s' b1) = b_lhs (bd s b1).
+Proof.
+  intros TP P L Hg Hk Hs b1 Hb1.
+  pose proof (LInvP_of_cur s b Hg (proj1 (PInv_heap s P)) L) as LP.
+  destruct (recomputeNodeSerial_spec PT PT_struct bind_spec_holds fuel [] s b s' None imm Logic.I P eq_refl Hg Hs)
+    as [[Hr|Hr]|[(P1 & _) _]]; try discriminate.
+  destruct (rns_lhs fuel s b s' imm Hk Hs) as (u & Hbind & Htail).
+  destruct (stages fuel s b u P Hg Hk Hbind) as (s3 & root & t8 & Einst & FP & Ecp & T8 & F8 & Eiv & Hsame & Hval & PU).
+  eapply (assemble_read fuel s b u s' imm); eassumption.
 Qed.
 
 (** * The parallel pass on graphs with binds *)
